@@ -166,11 +166,19 @@ func (vc *VC) step(st *State, fr *Frame, b *ssa.BasicBlock, i int) {
 				fr2 := fr.cloneVals()
 				vc.assumeCond(st, c.S)
 				st.trail = append(st.trail, fmt.Sprintf("b%d:T", b.Index))
-				vc.enter(st, fr, b.Succs[0], b)
+				if vc.feasible(st) {
+					vc.enter(st, fr, b.Succs[0], b)
+				} else {
+					vc.pruned++
+				}
 				vc.assumeCond(st2, not(c.S))
 				vc.learn(st2, c.S, false)
 				st2.trail = append(st2.trail, fmt.Sprintf("b%d:F", b.Index))
-				vc.enter(st2, fr2, b.Succs[1], b)
+				if vc.feasible(st2) {
+					vc.enter(st2, fr2, b.Succs[1], b)
+				} else {
+					vc.pruned++
+				}
 			}
 			return
 		case *ssa.Jump:
@@ -1102,6 +1110,39 @@ func (vc *VC) mapUpdate(st *State, fr *Frame, x *ssa.MapUpdate) {
 	m := vc.val(st, fr, x.Map)
 	k := vc.val(st, fr, x.Key)
 	v := vc.val(st, fr, x.Value)
+	if fr.top && st.ctx != nil && st.ctx.blk != nil {
+		for i, ac := range st.ctx.blk.AtClosure {
+			if !strings.HasPrefix(ac.Callee, "mapupdate:") {
+				continue
+			}
+			want := strings.TrimPrefix(ac.Callee, "mapupdate:")
+			// the map operand must be the parameter / local of that name
+			env := vc.localsEnv(st, fr)
+			named, _, ok := env.lookup(want)
+			if !ok {
+				if pv, okp := vc.params[want]; okp {
+					named, ok = pv, true
+				}
+			}
+			if !ok || named.S != m.S {
+				continue
+			}
+			mt := x.Map.Type().Underlying().(*types.Map)
+			env.bind("key", k, mt.Key())
+			env.bind("value", v, mt.Elem())
+			t, err := vc.evalClause(st.ctx, st, st.ctx.old, ac.Clause.Text, env)
+			if err != nil {
+				vc.fail(fmt.Errorf("%s:%d: %v", ac.Clause.File, ac.Clause.Line, err))
+				return
+			}
+			if vc.atUsed == nil {
+				vc.atUsed = map[string]int{}
+			}
+			vc.atUsed[ac.Clause.Text]++
+			cl := ac.Clause
+			vc.oblige(st, "at-mapupdate."+want, labelOr(cl.Label, i+1), t.S, &cl, vc.siteName(x, "mapupdate"))
+		}
+	}
 	st.escape(k)
 	st.escape(v)
 	vc.check(st, vc.nonnil(st, m.S), "mapnil", vc.siteName(x, "mapupdate"))
@@ -1303,4 +1344,19 @@ func (st *State) escape(v T) {
 	for _, t := range v.Tup {
 		mark(t.S)
 	}
+}
+
+
+// feasible: cheap pruning of dead branches.  Only used once a function has
+// produced many paths; asks one solver, quantifier-free relaxation, short
+// limit.  `unsat` of the relaxation is sound evidence that the branch cannot
+// be taken; anything else keeps the branch.
+func (vc *VC) feasible(st *State) bool {
+	if vc.pure > 0 || len(st.trail) < 6 {
+		return true
+	}
+	o := &Oblig{Goal: "false", Assumes: st.assumes}
+	q := Relax(BuildQuery(vc.decls, o))
+	a := solveFast(q, 400)
+	return a != "unsat"
 }
